@@ -117,6 +117,9 @@ pub struct ModSpec {
     pub hot: Vec<u64>,
     /// CodeView record is an ELF build id rather than a PDB70 record (Linux / Android modules).
     pub elf_build_id: bool,
+    /// No CodeView record in the dump; the symbol server resolves code file + code id to
+    /// `rel` with a redirect.
+    pub code_lookup: bool,
 }
 
 impl ModSpec {
@@ -171,6 +174,10 @@ pub struct World {
     pub has_proc_limits: bool,
     /// Every memory region written to the dump: (base address, length).
     pub regions: Vec<(u64, u64)>,
+    /// Thread id named by the exception stream (its context may replace a thread's own).
+    pub crashing_id: Option<u32>,
+    /// A BreakpadInfo stream names a requesting thread (same effect as the exception's id).
+    pub uses_breakpad_info: bool,
     pub describe: serde_json::Value,
 }
 
@@ -354,7 +361,14 @@ fn module_symbols(arch: Arch, os: OsKind, m: &ModSpec, adversarial: bool) -> (Ve
             }
         }
     }
+    if adversarial && chance("dump.sym.dup_ids", 1, 3) {
+        // the same FILE / INLINE_ORIGIN id defined twice with different names
+        s.push_str("FILE 0 src/other_main.c\nFILE 1 src/other_util.c\nINLINE_ORIGIN 0 dup_inlinee\nINLINE_ORIGIN 1 dup_another\n");
+    }
     s.push_str(&format!("PUBLIC {:x} 0 public_tail_{}\n", 0x800u64.min(m.size as u64 / 2), leaf.replace(' ', "_")));
+    if adversarial && chance("dump.sym.dup_publics", 1, 3) {
+        s.push_str(&format!("PUBLIC {:x} 0 public_dup_a\nPUBLIC {:x} 4 public_dup_b\n", 0x800u64.min(m.size as u64 / 2), 0x800u64.min(m.size as u64 / 2)));
+    }
     s.push_str(&win);
     s.push_str(&cfi);
     (s.into_bytes(), hot)
@@ -552,7 +566,11 @@ pub fn gen_world(opts: &WorldOpts) -> World {
         let leaf = LEAVES[ch("dump.mod.leaf", LEAVES.len() as u32) as usize];
         let dir = DIRS[ch("dump.mod.dir", DIRS.len() as u32) as usize];
         let size = [0x8000u32, 0x2000, 0x20000, 0x1000][ch("dump.mod.size", 4) as usize];
-        let has_cv = opts.need_debug_ids || !chance("dump.mod.nocv", 1, 6);
+        // HTTP configurations: every module has a known server path; a Windows module may still
+        // lack its CodeView record, in which case the supplier asks the server for the debug
+        // file / id by code file + code id (302 redirect)
+        let code_lookup = opts.need_debug_ids && os == OsKind::Windows && chance("dump.mod.code_lookup", 1, 4);
+        let has_cv = (opts.need_debug_ids && !code_lookup) || (!opts.need_debug_ids && !chance("dump.mod.nocv", 1, 6));
         let debug_leaf = if leaf.ends_with(".dll") || leaf.ends_with(".exe") { format!("{}.pdb", &leaf[..leaf.len() - 4]) } else { leaf.to_string() };
         let mut m = ModSpec {
             code_file: format!("{dir}{leaf}"),
@@ -567,8 +585,10 @@ pub fn gen_world(opts: &WorldOpts) -> World {
             sym_kind: "none",
             hot: Vec::new(),
             elf_build_id: false,
+            code_lookup: false,
         };
-        if has_cv {
+        m.code_lookup = code_lookup;
+        if has_cv || code_lookup {
             let l = crate::common::leaf(&m.debug_file).to_string();
             let symname = if l.to_lowercase().ends_with(".pdb") { format!("{}.sym", &l[..l.len() - 4]) } else { format!("{l}.sym") };
             m.rel = Some(format!("{}/{}/{}", l, m.breakpad_id(), symname));
@@ -646,6 +666,26 @@ pub fn gen_world(opts: &WorldOpts) -> World {
     sysinfo.major_version = 10;
     sysinfo.minor_version = ch("dump.os.minor", 4);
     sysinfo.build_number = 19041;
+    if os.is_linuxish() && chance("dump.os.zero_version", 1, 2) {
+        // breakpad's Linux writer leaves the numeric version at 0.0.0 and puts `uname` into the
+        // build string
+        sysinfo.major_version = 0;
+        sysinfo.minor_version = 0;
+        sysinfo.build_number = 0;
+    }
+    const CSD: [&str; 10] = [
+        "Linux 5.15.0-91-generic #101-Ubuntu SMP Tue Nov 14 13:30:08 UTC 2023 x86_64 GNU/Linux",
+        "Linux 5.15.0-91-generic Linux/GNU",
+        "Linux 0.0.0 Linux/GNU",
+        "Linux",
+        "",
+        "a b",
+        "Service Pack 2",
+        "Linux 6.1 x86_64 Linux/GNU",
+        "  ",
+        "Linux \u{fc}ber.1.2 #1 GNU/Linux",
+    ];
+    let csd = if chance("dump.os.csd", 2, 3) { Some(CSD[ch("dump.os.csd.which", 10) as usize]) } else { None };
     sysinfo.number_of_processors = 4;
     synth = synth.add_system_info(sysinfo);
 
@@ -755,7 +795,7 @@ pub fn gen_world(opts: &WorldOpts) -> World {
                 r.fp = [u64::MAX - 3, u64::MAX - 7, u64::MAX - 15, (sbase + slen as u64).wrapping_sub(w), 1, if w == 4 { 0xffff_fff8 } else { u64::MAX - 8 }, u64::MAX - 17, u64::MAX - 20, u64::MAX - 24, u64::MAX - 33][rng.below(10) as usize];
             }
         }
-        let id = 0x1000 + t as u32;
+        let id = if adv && t > 0 && chance("dump.thread.dup_id", 1, 12) { 0x1000 + (t as u32 - 1) } else { 0x1000 + t as u32 };
         let mem_addr = if adv && chance("dump.stack.top_of_space", 1, 16) {
             // stack at the very top of the address space
             let top = if w == 4 { 0x1_0000_0000u64 } else { 0 };
@@ -802,9 +842,11 @@ pub fn gen_world(opts: &WorldOpts) -> World {
         let over = Memory::with_section(Section::with_endian(e).append_repeated(0xAB, 0x30), t0.stack_base.wrapping_add(0x10));
         let empty = Memory::with_section(Section::with_endian(e), t0.stack_base.wrapping_add(0x4000));
         let far = Memory::with_section(Section::with_endian(e).append_repeated(0xCD, 0x20), 0x10);
-        synth = synth.add_memory(over).add_memory(empty).add_memory(far);
+        let same_start = Memory::with_section(Section::with_endian(e).append_repeated(0xEF, 0x18), t0.stack_base);
+        synth = synth.add_memory(over).add_memory(empty).add_memory(far).add_memory(same_start);
         regions.push((t0.stack_base.wrapping_add(0x10), 0x30));
         regions.push((0x10, 0x20));
+        regions.push((t0.stack_base, 0x18));
     }
     for m in memories64 {
         synth = synth.add_memory64(m);
@@ -888,7 +930,30 @@ pub fn gen_world(opts: &WorldOpts) -> World {
         }
         // code bytes at the crashing ip (for instruction analysis on amd64)
         if chance("dump.exc.code_memory", 2, 3) {
-            const SNIPPETS: [&[u8]; 15] = [
+            const SNIPPETS: [&[u8]; 38] = [
+                &[0x62, 0xf1, 0x7c, 0x49, 0x11, 0x00],             // vmovups [rax]{k1}, zmm0
+                &[0x62, 0xf1, 0x7c, 0x49, 0x10, 0x00],             // vmovups zmm0{k1}, [rax]
+                &[0x62, 0xf1, 0xfd, 0x4a, 0x7f, 0x03],             // vmovdqa64 [rbx]{k2}, zmm0
+                &[0x62, 0xf2, 0x7d, 0x49, 0xa0, 0x04, 0x08],       // vpscatterdd [rax+zmm1]{k1}, zmm0
+                &[0xc4, 0xe2, 0x79, 0x2e, 0x00],                   // vmaskmovps [rax], xmm0, xmm0
+                &[0x66, 0x0f, 0x38, 0xf6, 0x00],                   // adcx eax, [rax]
+                &[0x48, 0x8b, 0x05, 0x10, 0x00, 0x00, 0x00],       // mov rax, [rip+0x10]
+                &[0xff, 0x15, 0xf0, 0xff, 0xff, 0xff],             // call [rip-0x10]
+                &[0x65, 0x48, 0x8b, 0x00],                         // mov rax, gs:[rax]
+                &[0x48, 0x8b, 0x84, 0xc8, 0xff, 0xff, 0xff, 0x7f], // mov rax, [rax+rcx*8+0x7fffffff]
+                &[0x48, 0x8d, 0x04, 0x0b],                         // lea rax, [rbx+rcx]
+                &[0xff, 0x20],                                     // jmp [rax]
+                &[0x38, 0x07],                                     // cmp [rdi], al
+                &[0x48, 0xff, 0x00],                               // inc qword [rax]
+                &[0x8f, 0x00],                                     // pop [rax]
+                &[0x0f, 0x2e, 0x00],                               // ucomiss xmm0, [rax]
+                &[0x48, 0xf7, 0x33],                               // div qword [rbx]
+                &[0xf3, 0xa4],                                     // rep movsb
+                &[0xf3, 0x48, 0xab],                               // rep stosq
+                &[0x48, 0x01, 0x18],                               // add [rax], rbx
+                &[0x48, 0x2b, 0x04, 0x24],                         // sub rax, [rsp]
+                &[0xc5, 0xf8, 0x28, 0x00],                         // vmovaps xmm0, [rax]
+                &[0xcb],                                           // retf
                 &[0x48, 0x8b, 0x04, 0x0b],             // mov rax, [rbx+rcx]
                 &[0x89, 0x04, 0xb3],                   // mov [rbx+rsi*4], eax
                 &[0x4a, 0x03, 0x04, 0x02],             // add rax, [rdx+r8]
@@ -905,7 +970,16 @@ pub fn gen_world(opts: &WorldOpts) -> World {
                 &[0x0f, 0x0b],                         // ud2
                 &[0x48, 0xff, 0x74, 0x24, 0x08],       // push [rsp+8]
             ];
-            let mut code = SNIPPETS[ch("dump.exc.snippet", 15) as usize].to_vec();
+            let mut code = SNIPPETS[ch("dump.exc.snippet", 38) as usize].to_vec();
+            if chance("dump.exc.structured_random", 1, 5) {
+                // prefixes + opcode + modrm/sib/disp drawn at random: breadth over the decoder
+                const PRE: [&[u8]; 12] = [&[], &[0x66], &[0xf2], &[0xf3], &[0x48], &[0x4c], &[0x0f], &[0x48, 0x0f], &[0xc5, 0xf8], &[0xc4, 0xe2, 0x79], &[0x62, 0xf1, 0x7c, 0x49], &[0x65, 0x48]];
+                code = PRE[ch("dump.exc.sr.prefix", 12) as usize].to_vec();
+                code.extend_from_slice(&simkit::blob("dump.exc.sr.tail", 11));
+            }
+            if chance("dump.exc.random_code_bytes", 1, 6) {
+                code = simkit::blob("dump.exc.codeblob", 15);
+            }
             code.extend_from_slice(&simkit::blob("dump.exc.codetail", 15));
             if !use_mem64 {
                 regions.push((t.ip, code.len() as u64));
@@ -1041,7 +1115,8 @@ pub fn gen_world(opts: &WorldOpts) -> World {
             synth = synth.set_linux_maps(maps.as_bytes());
         }
     }
-    if chance("dump.breakpad_info", 1, 4) {
+    let uses_breakpad_info = chance("dump.breakpad_info", 1, 4);
+    if uses_breakpad_info {
         // BreakpadInfo: validity, dump_thread_id, requesting_thread_id
         let sec = Section::with_endian(e).D32(3).D32(threads.last().unwrap().id).D32(threads[0].id);
         synth = synth.add_stream(SimpleStream {
@@ -1053,9 +1128,15 @@ pub fn gen_world(opts: &WorldOpts) -> World {
         synth = synth.set_soft_errors("[{\"InitErrors\": [{\"StopProcessFailed\": {\"Stop\": \"EPERM\"}}]}]");
     }
 
+    if let Some(c) = csd {
+        synth = synth.add(DumpString::new(&format!("\u{1}CSD\u{1}{c}"), e));
+    }
     let mut dump = synth.finish().expect("synth dump");
     if let Some(tid) = exception_ctx_of {
         patch_exception_context(&mut dump, tid);
+    }
+    if let Some(c) = csd {
+        patch_csd_version(&mut dump, c);
     }
     if os == OsKind::Windows && chance("dump.teb", 1, 2) {
         // thread environment blocks: inside the thread's own stack, at its very end, or far off
@@ -1092,6 +1173,8 @@ pub fn gen_world(opts: &WorldOpts) -> World {
         total_stack_bytes,
         has_proc_limits,
         regions,
+        crashing_id: crashing,
+        uses_breakpad_info,
         describe,
     }
 }
@@ -1228,6 +1311,36 @@ fn patch_thread_tebs(dump: &mut [u8], tebs: &[u64]) {
         let at = tl + 4 + i * 48 + 16;
         if at + 8 <= dump.len() {
             dump[at..at + 8].copy_from_slice(&if be { tebs[i].to_be_bytes() } else { tebs[i].to_le_bytes() });
+        }
+    }
+}
+
+/// Point the system-info stream's CSD-version (OS build string) at the string that was added
+/// with the marker prefix "\u{1}CSD\u{1}" (the marker is cut off by pointing past it).
+fn patch_csd_version(dump: &mut [u8], csd: &str) {
+    let be = BIG_ENDIAN.with(|b| b.get());
+    let enc = |s: &str| -> Vec<u8> { s.encode_utf16().flat_map(|u| if be { u.to_be_bytes() } else { u.to_le_bytes() }).collect() };
+    let marker = enc("\u{1}CSD\u{1}");
+    let Some(pos) = dump.windows(marker.len()).position(|w| w == &marker[..]) else { return };
+    // A MINIDUMP_STRING is a u32 byte length followed by UTF-16 data: build one in place, just
+    // before the real text (overwriting the tail of the marker)
+    let text_at = pos + marker.len();
+    if text_at < 4 {
+        return;
+    }
+    let len = enc(csd).len() as u32;
+    let hdr = text_at - 4;
+    dump[hdr..hdr + 4].copy_from_slice(&if be { len.to_be_bytes() } else { len.to_le_bytes() });
+    let (Some(count), Some(dir)) = (rd32(dump, 8), rd32(dump, 12)) else { return };
+    for i in 0..count as usize {
+        let e = dir as usize + i * 12;
+        let (Some(ty), Some(rva)) = (rd32(dump, e), rd32(dump, e + 8)) else { return };
+        if ty == 7 {
+            let at = rva as usize + 24;
+            if at + 4 <= dump.len() {
+                let v = hdr as u32;
+                dump[at..at + 4].copy_from_slice(&if be { v.to_be_bytes() } else { v.to_le_bytes() });
+            }
         }
     }
 }
